@@ -10,6 +10,8 @@ confirm = "--confirm" in sys.argv
 rows = []
 for name in sorted(os.listdir(os.path.join(VERIF, "seeded"))):
     d = os.path.join(VERIF, "seeded", name)
+    if name.startswith("_"):
+        continue
     if not os.path.isdir(d) or (args and name not in args and name.split("-")[0] not in args):
         if os.path.isdir(d) and os.path.exists(os.path.join(d, "result.json")):
             rows.append(json.load(open(os.path.join(d, "result.json"))))
